@@ -532,7 +532,11 @@ func (p *Path) preEq(a, b []*Term) *Term {
 			wa, oka := packLE(tt, a[i:i+8])
 			wb, okb := packLE(tt, b[i:i+8])
 			if oka && okb {
-				cs = append(cs, tt.Eq(wa, wb))
+				if r, ok := p.hashWordEq(wa, wb); ok {
+					cs = append(cs, r)
+				} else {
+					cs = append(cs, tt.Eq(wa, wb))
+				}
 				i += 8
 				continue
 			}
@@ -556,6 +560,16 @@ func packLE(tt *TermTable, bs []*Term) (*Term, bool) {
 	return t, true
 }
 
+// unprefixedSite: hashing sites of jd that hash raw content without a type prefix.
+func unprefixedSite(site string) bool {
+	for _, s := range []string{"jsonString.hashCode", "jsonNumber.hashCode", "jsonMultiset.hashCode", "hashCodes.combine", "jsonObject.hashCode#key"} {
+		if strings.HasSuffix(site, s) {
+			return true
+		}
+	}
+	return false
+}
+
 func isHashVar(t *Term) bool { return t.op == OVar && strings.HasPrefix(t.name, "h64_") }
 
 // hashApply returns the idealised FNV-1a code of the byte sequence.
@@ -577,6 +591,10 @@ func (p *Path) hashApply(pre []*Term, site string) *Term {
 		h = tt.BV(64, fnv64a(bs))
 		for _, a := range p.apps {
 			if a.h == h {
+				if p.known["hash.alias"] && site != a.site && (unprefixedSite(site) || unprefixedSite(a.site)) {
+					p.flags["excluded:hash.alias"] = true
+					panic(pathEnd{"assumed", "hash.alias"})
+				}
 				return h
 			}
 		}
@@ -607,6 +625,16 @@ func (p *Path) hashApply(pre []*Term, site string) *Term {
 			continue
 		}
 		pe := p.preEq(pre, a.pre)
+		if p.known["hash.alias"] && site != a.site && (unprefixedSite(site) || unprefixedSite(a.site)) && !(pe.IsConst() && pe.val == 0) {
+			// listed finding: preimages of hashing sites without a type prefix can coincide with
+			// preimages of other sites; that region is assumed away, the codes are then distinct
+			p.flags["excluded:hash.alias"] = true
+			if pe.IsConst() && pe.val == 1 {
+				panic(pathEnd{"assumed", "hash.alias"})
+			}
+			axioms = append(axioms, tt.Not(pe))
+			pe = tt.F
+		}
 		ax := tt.Eq(tt.Eq(h, a.h), pe)
 		if ax.w == SortBool && !ax.IsConst() {
 			axioms = append(axioms, ax)
